@@ -47,6 +47,8 @@ async def aval(i):
     await _asyncio.sleep(0); T.append(i); return V(i)
 async def apv(i):
     await _asyncio.sleep(0); T.append(i); print("o%d" % i); return V(i)
+async def acoro(i):
+    T.append(('ran', i)); print("ran%d" % i); return V(i)
 async def agen(i):
     T.append(i)
     for _k in range(2):
